@@ -51,6 +51,8 @@ def strategy(ctx):
         "rebind": st.one_of(st.just([]), st.lists(st.integers(0, 11), min_size=4, max_size=8)),
         "metrics": st.sampled_from([["BRANCH"], ["LINE"], ["BRANCH", "LINE"]]),
         "assertions": st.booleans(),
+        # keep assertions on call results only (what mutation-analysis filtering, seeded or hand-written tests look like)
+        "call_assertions_only": st.booleans(),
         "strategy": st.sampled_from(["CASE", "SUITE", "COMBINED"]),
         "direction": st.sampled_from(["FORWARD", "BACKWARD"]),
     })
@@ -105,6 +107,11 @@ def _child(case: dict[str, Any]) -> dict[str, Any]:
         s.executor.clear_observers()
         s.executor.clear_remote_observers()
         gen._generate_assertions(s.executor, suite, s.cluster)
+        if case.get("call_assertions_only"):
+            for ch in suite.test_case_chromosomes:
+                for stmt in ch.test_case.statements():
+                    if stmt.accessible is None:
+                        stmt.assertions.clear()
         cov_fns = list(s.algorithm.test_suite_coverage_functions)
 
         timeouts = [0]
